@@ -16,6 +16,11 @@ def build_script(ops, new_process):
         if o == 'append':
             out.append(dict(op='append', topic='t', entries=[dict(uid=uid, len=5)]))
             uid += 1
+        elif o == 'reopen':
+            out.append(dict(op='restart_process'))
+            out.append(dict(op='open'))
+            out.append(dict(op='is_clean', topic='t'))
+            continue
         elif o == 'clean':
             out.append(dict(op='mark_clean', topic='t'))
         else:
@@ -49,9 +54,9 @@ def judge(script, obs):
 def main(tier, seed):
     rep = Report(PROP, tier, seed)
     runner.clear_replays(PROP)
-    L = 3 if tier == 'quick' else 5
-    rep.bounds = dict(histories='every sequence of <= %d operations from {append, mark_topic_clean, mark_topic_dirty} on one topic, then drop and reopen' % L,
-                      schedules='the persister thread either completes a full pass before the instance is dropped or does not run at all (both explored)')
+    L = 4 if tier == 'quick' else 5
+    rep.bounds = dict(histories='every sequence of <= %d operations from {append, mark_topic_clean, mark_topic_dirty, clean shutdown + reopen} on one topic, then drop and reopen' % L,
+                      schedules='three persister schedules: it never runs, it completes a full pass before the instance is dropped, or it holds an upgraded strong reference when the instance is dropped and the process exits before it writes')
     rep.assumptions = list(envmodel.ASSUMPTIONS) + ['recv_timeout delivers queued topics, then times out; Weak::upgrade fails once the instance was dropped',
                                                       'dropping the instance runs the Drop impls found in the source (Arc counts modelled)']
     binp, err = replay.build()
